@@ -212,3 +212,11 @@ def eval3(test: ast.AST, val: Callable[[ast.AST], Optional[bool]]) -> Optional[b
 def guards_hold_when(fn: Fn, ctx: Ctx, val: Callable[[ast.AST], Optional[bool]]) -> bool:
     """True iff every guard of the site is decided — in the site's favour — by the leaf valuation `val` alone."""
     return all(eval3(effective_test(fn, e), val) is pol for e, pol in ctx.guards)
+
+
+def expanded_guards(fn: Fn, ctx: Ctx) -> List[Atom]:
+    """The site's guards with named conditions looked through and split into atoms again."""
+    out: List[Atom] = []
+    for e, pol in ctx.guards:
+        out += atoms(effective_test(fn, e), pol)
+    return out
